@@ -8,8 +8,10 @@ import (
 	"math/big"
 	"strings"
 	"testing"
+	"unicode/utf8"
 
 	"github.com/piotrnar/gocoin/lib/btc"
+	"github.com/piotrnar/gocoin/lib/others/ltc"
 	"pgregory.net/rapid"
 	"verif/pbt"
 	"verif/ref/addr"
@@ -118,6 +120,31 @@ func checkScript(c scriptCase) error {
 	}
 	if out := b.OutScript(); !bytes.Equal(out, s) {
 		return fmt.Errorf("script %x -> %q -> script %x", s, got, out)
+	}
+	return checkLtc(s, c.Testnet)
+}
+
+// Litecoin mode of the wallet (-ltc): the address shown for an output script comes from ltc.NewAddrFromPkScript, which
+// only swaps the version byte.  Whatever byte it picks, the string it shows must denote the script: typed back in,
+// it gives the same output script - and so does the address object itself.
+func checkLtc(s []byte, testnet bool) error {
+	a := ltc.NewAddrFromPkScript(s, testnet)
+	if a == nil {
+		return fmt.Errorf("litecoin mode: script %x has an address in bitcoin mode but none in litecoin mode", s)
+	}
+	if out := a.OutScript(); !bytes.Equal(out, s) {
+		return fmt.Errorf("litecoin mode: address object for script %x (version byte %d) gives output script %x", s, a.Version, out)
+	}
+	str := a.String()
+	b, err := btc.NewAddrFromString(str)
+	if err != nil || b == nil {
+		return fmt.Errorf("litecoin mode: own encoding %q of script %x is refused: %v", str, s, err)
+	}
+	if out := b.OutScript(); !bytes.Equal(out, s) {
+		return fmt.Errorf("litecoin mode: script %x -> %q -> script %x", s, str, out)
+	}
+	if pl, ok := addr.Base58CheckDecode(str); a.SegwitProg == nil && (!ok || !bytes.Equal(pl, append([]byte{a.Version}, a.Hash160[:]...))) {
+		return fmt.Errorf("litecoin mode: %q does not carry version byte %d and the hash of script %x", str, a.Version, s)
 	}
 	return nil
 }
@@ -338,11 +365,19 @@ func mutate(t *rapid.T, s string, alphabet string) (string, int) {
 	b := []byte(s)
 	n := rapid.IntRange(1, 4).Draw(t, "edits")
 	for i := 0; i < n; i++ {
-		op := rapid.IntRange(0, 9).Draw(t, "op")
+		op := rapid.IntRange(0, 10).Draw(t, "op")
 		if len(b) == 0 {
 			op = 7
 		}
 		switch {
+		case op == 10: // a character outside ASCII (valid UTF-8) whose code point ends in the bits of a legal character
+			p := rapid.IntRange(0, len(b)-1).Draw(t, "pos")
+			ch := b[p]
+			if ch >= 0x80 || rapid.Bool().Draw(t, "other") {
+				ch = alphabet[rapid.IntRange(0, len(alphabet)-1).Draw(t, "ch")]
+			}
+			cp := rune(ch) + rapid.SampledFrom([]rune{0x80, 0x100, 0x200, 0x400, 0x1000, 0xff00, 0x10000, 0x1f400, 0x100000}).Draw(t, "plane")
+			b = append(b[:p], append([]byte(string(cp)), b[p+1:]...)...)
 		case op <= 4: // substitution inside the alphabet
 			p := rapid.IntRange(0, len(b)-1).Draw(t, "pos")
 			b[p] = alphabet[rapid.IntRange(0, len(alphabet)-1).Draw(t, "ch")]
@@ -420,6 +455,9 @@ func TestStringDecode(t *testing.T) {
 			r.Class("ref_accepts")
 		} else {
 			r.Class("ref_refuses")
+		}
+		if str := c.str(); utf8.ValidString(str) && strings.IndexFunc(str, func(r rune) bool { return r >= 0x80 }) >= 0 {
+			r.Class("characters_outside_ascii_valid_utf8")
 		}
 		if !strings.HasPrefix(c.Kind, "pristine/segwit") && !strings.HasPrefix(c.Kind, "pristine/base58") || c.Kind == "pristine/base58_len" {
 			r.NonTrivial()
